@@ -1012,6 +1012,24 @@ def rule_unit(repo, rule):
     txts = [norm(c).replace(" ", "") for c in conj]
     has_len = any(c in ("len(%s.lc.sig)==1" % x, "1==len(%s.lc.sig)" % x) for c in txts)
     has_coef = any(c in ("%s.lc.sig[0][0]==1" % x, "1==%s.lc.sig[0][0]" % x, "%s.lc.sig[0][0]%%vc_p==1" % x) for c in txts)
+    # the unit-wire test as a method of the term class:  x.lc.M() is not None  with
+    #     def M(self): if len(self.sig) != 1: return None ; ((v, c),) = self.sig.items() ; return v if c == 1 else None
+    # answers the wire exactly for "one term with coefficient one" (coefficients are kept reduced by the constructor)
+    for c_ in txts:
+        import re as _re7
+        m_ = _re7.fullmatch(r"%s\.lc\.(\w+)\(\)isnotNone" % x, c_) or _re7.fullmatch(r"not%s\.lc\.(\w+)\(\)isNone" % x, c_)
+        sigc = m.classes.get("Sig")
+        um = sigc.methods.get(m_.group(1)) if (m_ and sigc) else None
+        if um is not None and len(um.params) == 1:
+            ub = [norm(s).replace(" ", "").replace("\n", "") for s in um.node.body if not (isinstance(s, ast.Expr) and isinstance(s.value, ast.Constant))]
+            sp = um.params[0]
+            if len(ub) == 3 and ub[0] in ("iflen(%s.sig)!=1:returnNone" % sp, "ifnotlen(%s.sig)==1:returnNone" % sp) \
+                    and _re7.fullmatch(r"\(?\((\w+),(\w+)\),\)?=%s\.sig\.items\(\)" % sp, ub[1]):
+                v_, k_ = _re7.fullmatch(r"\(?\((\w+),(\w+)\),\)?=%s\.sig\.items\(\)" % sp, ub[1]).groups()
+                if ub[2] in ("return%sif%s==1elseNone" % (v_, k_), "returnNoneif%s!=1else%s" % (k_, v_)):
+                    has_len = has_coef = True
+                    if any("lc.%s()" % m_.group(1) in norm(c2) for c2 in writes_in(vdb.node, "qape")):
+                        uses_name_only = True
     term = "bypass when `%s`; block record lists the term's wire name%s" % (norm(t), "" if uses_name_only else " (?)")
     if has_len and has_coef:
         rule.ok(es.loc(bypass[0]), es.fq, term, "only exact unit wires bypass re-allocation")
